@@ -98,7 +98,12 @@ func BuildWithFactory(w *world.World, net *fake.Net, cfg Config, factory pebbles
 	client := &http.Client{Transport: net}
 	if factory == nil {
 		factory = func(ctx *planner.PlanningContext, url string) queryer.Queryer {
-			return queryer.NewMultiOpQueryer(url, maxBatch).WithHTTPClient(client)
+			q := queryer.NewMultiOpQueryer(url, maxBatch).WithHTTPClient(client)
+			// like the gateway's default factory: downstream requests live as long as the client's request
+			if ctx != nil && ctx.Request != nil && ctx.Request.Original != nil {
+				q = q.WithContext(ctx.Request.Original.Context())
+			}
+			return q
 		}
 	}
 	opts := []pebbles.GatewayOption{
